@@ -111,6 +111,64 @@ def run_point(case):
         return [('machinery', f'{type(e).__name__}: {e}\n{traceback.format_exc()}')]
 
 
+SESSION_ALT_FT = {'low': 9000.0, 'mid': 15000.0, 'high': 33000.0}
+SESSION_MASS = {'light': 52000.0, 'heavy': 71000.0}
+
+
+def _session_args(c):
+    """Arguments of one BadaSession.tla call: one point or a three-point profile at the call's altitude class,
+    temperature = ISA at those altitudes + the call's offset."""
+    from AEIC.units import METERS_TO_FEET
+    from AEIC.utils.standard_atmosphere import temperature_at_altitude_isa_bada4
+
+    base = SESSION_ALT_FT[c['alt']] / METERS_TO_FEET
+    alt = np.array([base] if c['form'] == 'point' else [base, base + 300.0, base + 600.0])
+    n = len(alt)
+    temp = temperature_at_altitude_isa_bada4(alt) + DT[c['der']]
+    mass = np.full(n, SESSION_MASS[c['load']])
+    v = np.full(n, 190.0 if c['alt'] == 'low' else 225.0)
+    rocd = np.full(n, 0.0 if c['load'] == 'heavy' else 3.0)
+    acc = np.zeros(n)
+    cruise = np.full(n, c['load'] == 'heavy')
+    return mass, temp, alt, v, rocd, acc, cruise
+
+
+def _session_eval(model, c):
+    mass, temp, alt, v, rocd, acc, cruise = _session_args(c)
+    thrust = np.asarray(model.calculate_thrust(mass, temp, alt, v, rocd, acc, cruise), float)
+    sgr = np.asarray(model.calculate_specific_ground_range(mass, temp, alt, v, rocd, acc, cruise, v.copy()), float)
+    return {'thrust': thrust.tolist(), 'sgr': sgr.tolist()}
+
+
+def run_session(job):
+    """One BadaSession.tla behaviour on ONE model instance; every call is compared with the same call on a
+    newly built instance (whose agreement with the equations is what the point cases decide)."""
+    warnings.simplefilter('ignore')
+    si, calls = job
+    try:
+        from AEIC.BADA.model import Bada3FuelBurnModel
+
+        eng = ('Jet', 'Turboprop', 'Piston')[si % 3]
+        # realistic magnitudes so that thrust stays between the limits at least for some calls (drag matters)
+        extra = dict(S_ref=120.0, c_d0cr=0.025, c_d2cr=0.04, c_tc1={'Jet': 140000.0, 'Turboprop': 6.0e7, 'Piston': 140000.0}[eng])
+        shared = Bada3FuelBurnModel(make_params(eng, **extra))
+        for k, c in enumerate(calls):
+            try:
+                got = _session_eval(shared, c)
+            except Exception as e:
+                return [(f'session:raised-{type(e).__name__}', f'call {k + 1} of a session on one {eng} model ({calls[: k + 1]}) raised {type(e).__name__}: {e}')]
+            want = _session_eval(Bada3FuelBurnModel(make_params(eng, **extra)), c)
+            for q in ('thrust', 'sgr'):
+                a, b = np.array(got[q]), np.array(want[q])
+                if a.shape != b.shape or not np.all((a == b) | (np.abs(a - b) <= 1e-12 * np.maximum(np.abs(b), 1.0))):
+                    return [(f'session:{q}-depends-on-earlier-calls', f'call {k + 1} of a session on one {eng} model instance: {q} = {got[q]}; the same call on a new instance: {want[q]}; calls so far {calls[: k + 1]}')]
+        return []
+    except Exception as e:
+        import traceback
+
+        return [('machinery', f'{type(e).__name__}: {e}\n{traceback.format_exc()}')]
+
+
 def sgr_of(a):
     return np.inf if a == 0 else (0.5 if a == 9 else 1000.0 / a)
 
@@ -182,7 +240,7 @@ def run(ctx: Ctx):
     ctx.rule = (
         'point cases = 3 engine types x 2 weights x 2 speeds x 5 climb rates x 2 accelerations x 3 altitudes (below/above h_p_des) x 4 temperature '
         'offsets (no/partial/clipped/negative deration) x cruise flag (2880, TLC-enumerated with rational results); mass cases = every inverse-range '
-        'profile of length 2..4 over {sub-1 m/kg, 0, 1, 2, 4}/1000 kg/m x forward/backward x 2 anchors (6200); non-trivial = thrust regime other than inside / profile with unequal nodes'
+        'profile of length 2..4 over {sub-1 m/kg, 0, 1, 2, 4}/1000 kg/m x forward/backward x 2 anchors (6200); sessions = every pair of evaluations (3 altitude classes x 4 temperature offsets x 2 loads x point/profile, 2304) plus random sessions of 6 on one model instance, each call compared with the same call on a new instance; non-trivial = thrust regime other than inside / profile with unequal nodes'
     )
     ctx.assumptions += [
         'contrived units: rho*S_ref = 2 using the library\'s own ISA density, weights as multiples of 1/g0, c_f2 and turboprop/piston constants as multiples of MPS_TO_KNOTS',
@@ -190,7 +248,7 @@ def run(ctx: Ctx):
     ]
     if ctx.replay:
         case = json.loads(Path(ctx.replay).read_text())['case']
-        res = run_point(case) if 'c' in case else run_mass(case)
+        res = run_session((case['si'], case['session'])) if 'session' in case else (run_point(case) if 'c' in case else run_mass(case))
         for key, desc in res:
             ctx.violation(key, desc, case)
         return
@@ -198,6 +256,22 @@ def run(ctx: Ctx):
     tlc.check(ctx, 'bada/BadaMass', 'bada/MC_BadaMass.cfg')
     pts = tlc.check(ctx, 'bada/BadaGen', 'bada/Gen_Bada.cfg', workers=4)['emitted']
     ms = tlc.check(ctx, 'bada/BadaMassGen', 'bada/Gen_BadaMass.cfg', workers=4, sub=None if ctx.quick else {'MaxLen = 4': 'MaxLen = 5'})['emitted']
+    # sessions: several evaluations on one model instance (BadaSession.tla), negative control first
+    tlc.check(ctx, 'bada/BadaSession', 'bada/MC_BadaSession.cfg', workers=4)
+    neg = tlc.run('bada/BadaSession', 'bada/MC_BadaSession.cfg', sub={'Design = "per_call"': 'Design = "kept_density"'}, workers=4)
+    if 'Invariant HistoryIndependent is violated' not in neg['out']:
+        raise MachineryError('negative control failed: a density kept per altitude profile should violate HistoryIndependent')
+    ctx.extra['negative_control'] = 'BadaSession with Design=kept_density violates HistoryIndependent as expected'
+    sess = tlc.check(ctx, 'bada/BadaSession', 'bada/Gen_BadaSession.cfg', workers=4)['emitted']
+    sess += tlc.check(ctx, 'bada/BadaSession', 'bada/Sim_BadaSession.cfg', workers=1, simulate=f'num={200 if ctx.quick else 3000}', depth=8, seed=ctx.seed)['emitted']
+    sjobs = list(enumerate(sess))
+    for (si, calls), devs in zip(sjobs, pmap(run_session, sjobs)):
+        ctx.case_done(('session', si), nontrivial=len({(c['alt'], c['form']) for c in calls}) < len(calls))
+        ctx.sample({'session': calls}, limit=2)
+        for key, desc in devs:
+            if key == 'machinery':
+                raise MachineryError('bada worker failed: ' + desc)
+            ctx.violation(key, desc, {'si': si, 'session': calls})
     ctx.exhaustive = True
     ctx.log(f'evaluating {len(pts)} point cases and {len(ms)} mass profiles on the real model')
     for case, devs in zip(pts, pmap(run_point, pts)):
